@@ -84,6 +84,7 @@ class Walk:
         self.rng, self.dtype = rng, dtype
         self.pool, self.snaps, self.calls, self.log = [], [], [], []
         self.fails = []          # (kind, message, step)
+        self.force_count = 0
         self.force = False       # scripted coverage walks: optional arguments (initial guesses) are always given when a candidate exists
     def add(self, o, call):
         self.pool.append(o); self.snaps.append(Snap(o)); self.calls.append(call)
@@ -204,8 +205,10 @@ def do_step(w, op):
     if op == "clone":
         i = w.pick()
         if i is None: return None
-        k = rng.choice(["clone", "detach", "to", "cpu", "conj"])
         x = P[i]
+        kinds_ = ["clone", "detach", "to", "cpu", "conj"]
+        if w.force: kinds_ = kinds_[w.force_count % 5:] + kinds_[:w.force_count % 5]; w.force_count += 1        # scripted walks: every kind in turn (the LAST object added is the one the aliasing probe edits)
+        k = kinds_[0] if w.force else rng.choice(kinds_)
         o = x.clone() if k == "clone" else (x.detach() if k == "detach" else (x.to(dtype=torch.float32 if dt == torch.float64 else torch.float64) if k == "to" else (x.cpu() if k == "cpu" else x.conj())))
         w.add(o, "KClone %d" % i); return "%s(%d)" % (k, i), None
     if op == "to_ttm":
@@ -521,7 +524,7 @@ def coverage_script():
     ops = []
     for o in OPS:
         if o not in ops: ops.append(o)
-    return ["new"] * 6 + ["new_family"] + ops + ["new"] * 2 + ["new_family"] + list(reversed(ops))
+    return ["new"] * 6 + ["new_family"] + ops + ["clone"] * 3 + ["new"] * 2 + ["new_family"] + list(reversed(ops))      # clone x 5 in all: clone, detach, to, cpu, conj
 
 def run_walk(seed, length, dtype, script=None):
     """returns (Walk, error or None)"""
@@ -544,7 +547,8 @@ def run_walk(seed, length, dtype, script=None):
         # that object: make the call (set_core on the new result, same shape) so that the ordinary frame check sees whether anything else moves
         if target is None and w.pool:
             j = len(w.pool) - 1; o = w.pool[j]
-            if any(o is p_ or o.cores is p_.cores for p_ in w.pool[:j]) and not name.startswith("scribble"):
+            copy_like = name.split("(")[0] in ("clone", "detach", "to", "cpu", "conj", "save/load")      # copies are probed always: shared bookkeeping (N / M / R lists) does not show in `is`
+            if (copy_like or any(o is p_ or o.cores is p_.cores for p_ in w.pool[:j])) and not name.startswith("scribble"):
                 try:
                     torch, _ = _imp()
                     c0 = o.cores[0].detach()
